@@ -13,7 +13,7 @@ History check after the run:
   * in the middle of every quiescent interval (no display change in the reference for >= 6
     frames) the document shows the same rows, characters and pen attributes as the reference
     displayed memory (row ends stripped, runs of blanks collapsed; absolute rows for pop-on and
-    paint-on, order and count for roll-up);
+    paint-on; roll-up paragraphs sit in bottom-aligned regions that end on row 15);
   * the same script sent through another channel configuration gives the same display sequence.
 """
 from fractions import Fraction
@@ -58,6 +58,7 @@ def gen_knobs(rng):
     start = rng.choice([0, 1796, 1797, 1798, 1800, 17980, 17982, 107890, 107892, rng.randrange(0, 200000)])
   return {
     "styles": styles, "captions": rng.randint(1, 12), "switch": rng.choice([0.0, 0.2, 0.5]), "enm": rng.choice([0.0, 0.5, 1.0]),
+    "unclean": 0.0,  # scope guard: style changes are always preceded by EDM + ENM (see DESIGN 8.2)
     "df": df, "start": start,
     "chan": {"double": rng.random() < 0.7, "null": rng.choice([0.0, 0.0, 0.1, 0.3]), "ch2": rng.choice([0.0, 0.0, 0.1, 0.3]),
              "parity_off": rng.choice([0.0, 0.0, 0.5, 1.0]), "line_len": rng.choice([6, 12, 20, 40, 1000]), "split": rng.choice([0.0, 0.0, 0.5, 1.0])},
@@ -149,24 +150,28 @@ def norm_cells(cells):
   return res
 
 
-def sut_display(doc, t, rollup):
-  """[(row or relative index, cells)] shown by the document at time t."""
+def sut_display(doc, t, rollup=False):
+  """[(absolute row, cells)] shown by the document at time t. Paragraphs in a bottom-aligned (roll-up)
+  region end on row 15; the others start on the row their region origin encodes."""
   out = []
   for p in paragraphs(doc):
     b, e = p.get_begin() or 0, p.get_end()
     if not (b <= t and (e is None or t < e)):
       continue
-    rows = [(rel, norm_cells(cells)) for rel, cells in p_rows(p, t)]
+    all_rows = p_rows(p, t)
+    rows = [(rel, norm_cells(cells)) for rel, cells in all_rows]
     rows = [(rel, cells) for rel, cells in rows if cells]
     if not rows:
       continue
-    if rollup:
-      # roll-up regions are bottom aligned: only order and count are compared
+    region = p.get_region()
+    bottom_aligned = region is not None and region.get_style(sp.StyleProperties.DisplayAlign) is sp.DisplayAlignType.after
+    if bottom_aligned:
+      maxrel = max(rel for rel, _c in all_rows)
       for rel, cells in rows:
-        out.append((None, cells))
+        out.append((15 - (maxrel - rel), cells))
     else:
       # the region origin is the top-most row of the paragraph; every br moves one row down
-      top = top_row_of(p.get_region(), doc) if p.get_region() is not None else None
+      top = top_row_of(region, doc) if region is not None else None
       for rel, cells in rows:
         out.append((None if top is None else top + rel, cells))
   return out
@@ -304,28 +309,18 @@ def check_run(knobs, script, stats, log, seed_label):
     md = mode_at(fmid)
     rollup = md == "roll"
     expected = ref608.render(state)
-    got = sut_display(doc, t, rollup)
+    got = sut_display(doc, t)
     stats.count("sim.quiescent_points_compared")
-    if rollup:
-      exp_cmp = [(None, cells) for _r, cells in expected]
-      if len(got) > max(dec.depth, 1) and len(got) > len(exp_cmp):
-        raise core.Violation("rollup-shows-more-rows-than-depth", "frame %d: %d rows shown\n%s" % (fmid, len(got), text[:1500]))
-    else:
-      exp_cmp = [(r, cells) for r, cells in expected]
-    g = [(r, cells) for r, cells in got]
-    if not rollup:
-      g = sorted(g, key=lambda x: (x[0] is None, x[0]))
+    exp_cmp = [(r, cells) for r, cells in expected]
+    g = sorted([(r, cells) for r, cells in got], key=lambda x: (x[0] is None, x[0]))
+    if rollup and len(g) > max(dec.depth, 1) and len(g) > len(exp_cmp):
+      raise core.Violation("rollup-shows-more-rows-than-depth", "frame %d: %d rows shown\n%s" % (fmid, len(g), text[:1500]))
     if [c for _r, c in g] != [c for _r, c in exp_cmp]:
       kind = "characters" if ["".join(x[0] for x in c) for _r, c in g] != ["".join(x[0] for x in c) for _r, c in exp_cmp] else "attributes"
-      if reused and not rollup:
+      if reused:
         # only rows that were written over earlier content (no ENM in between) differ?
         gd, ed = dict((r, c) for r, c in g), dict((r, c) for r, c in exp_cmp)
         if all(gd.get(r) == ed.get(r) for r in set(gd) | set(ed) if r not in reused):
-          kind += ":overwritten-row"
-      elif reused and rollup and len(g) == len(exp_cmp):
-        # rows are compared by order here: the differing ones must all be re-addressed rows
-        ref_rows = [r for r, _c in expected]
-        if all(gc == ec for (_gr, gc), (_er, ec), rr in zip(g, exp_cmp, ref_rows) if rr not in reused):
           kind += ":overwritten-row"
       v = core.Violation("display-differs:%s:%s" % (md or "none", kind),
                          "frame %d (t=%s): reader shows %s\nreference shows %s\n%s" % (fmid, t, _show(g), _show(exp_cmp), text[:2500]))
@@ -335,7 +330,7 @@ def check_run(knobs, script, stats, log, seed_label):
           soft.append(v)
         continue
       raise v
-    if not rollup and [r for r, _c in g] != [r for r, _c in exp_cmp]:
+    if [r for r, _c in g] != [r for r, _c in exp_cmp]:
       raise core.Violation("display-differs:%s:rows" % (md or "none"),
                            "frame %d (t=%s): reader rows %s, reference rows %s\nreader %s\n%s" % (fmid, t, [r for r, _ in g], [r for r, _ in exp_cmp], _show(g), text[:2500]))
     seq.append(core.small_hash(_show(exp_cmp)))
@@ -405,7 +400,7 @@ def run_one(rng, case, stats, rec, log, ctx=None):
     raise soft[0]
 
 
-def valid_script(ops):
+def valid_script(ops, allow_unclean=False):
   """Does the script follow the protocol grammars the statement quantifies over (and the scope
   guards of DESIGN.md)? Used to keep minimisation inside the property's domain and to guard the
   generator itself."""
@@ -427,7 +422,7 @@ def valid_script(ops):
       n = u[1]
       if n in ("RCL", "RDC", "RU2", "RU3", "RU4"):
         new = {"RCL": "pop", "RDC": "paint"}.get(n, "roll")
-        if mode is not None and new != mode and (dirty_disp or dirty_nond):
+        if mode is not None and new != mode and (dirty_disp or dirty_nond) and not allow_unclean:
           return False
         mode = new
         have_pos = False
@@ -508,6 +503,7 @@ def describe():
              "NDF or DF labels starting at seeded frames incl. minute / ten-minute / hour boundaries, idle gaps) and read by scc_reader.to_model with a "
              "seeded text_align; compared with the reference 608 decoder at the middle of every quiescent interval and on every emitted begin/end. "
              "distinct_nontrivial = distinct (rendered reference display state, kinds of the change) pairs reached."),
+    "fault_note": "channel perturbations of the word stream: redundant copies of codes, null padding words, channel-2 words, runs with parity bits cleared; line re-segmentation and clock jumps are part of every run's knobs",
     "nontrivial_measure": "ref_state",
     "components": {"real": ["ttconv/scc/* (reader, line, context, caption_paragraph/line/text, word, codes)", "ttconv/time_code.py", "ttconv/model.py"],
                    "stub": [], "simulated": ["caption encoder with the frame clock (sim/producers/scc608.py)", "line-21 channel perturbations"],
@@ -517,7 +513,7 @@ def describe():
     "assumptions": [
       "scripts follow the three protocols on channel 1 with clean mode switches (EDM+ENM and idle time before changing style); text of one row is sent contiguously",
       "display is compared at quiescent frames only (>= 3 frames away from any display change of the reference); inside transmission windows only the change times are judged",
-      "row ends are stripped and runs of blanks collapsed; roll-up rows are compared by order and count (the reader documents that it forces the base row to 15)",
+      "row ends are stripped and runs of blanks collapsed; in roll-up the base row is 15 on both sides (the reader documents that it forces it, the reference ignores the row of PACs in roll-up mode)",
       "the italics mid-row code is only generated while the pen is white, and characters whose Unicode identity is debatable are not generated (C17 territory)",
     ],
   }
